@@ -426,6 +426,21 @@ func CreateDB(dbName string) error {
 }
 
 func (rs *RelationService) CreateTable(r *Relation, tableName string) error {
+	if err := rs.createTable(r, tableName); err != nil {
+		return err
+	}
+
+	return rs.fs.flushPages()
+}
+
+// createTable makes the catalog changes under the shared lock, like every
+// other statement, so that the page flush timer cannot run in the middle of
+// them. The lock is released before the final flush, which takes the
+// exclusive lock itself.
+func (rs *RelationService) createTable(r *Relation, tableName string) error {
+	rs.fs.lockShared()
+	defer rs.fs.unlockShared()
+
 	_, err := rs.getRelationFileOffset(tableName)
 	if err != ErrTableNotExist {
 		return ErrTableAlreadyExist
@@ -463,7 +478,7 @@ func (rs *RelationService) CreateTable(r *Relation, tableName string) error {
 		return err
 	}
 
-	return rs.fs.flushPages()
+	return nil
 }
 
 func (rs *RelationService) createPage() (*btreeNode, error) {
